@@ -169,6 +169,8 @@ def run(ctx):
                             "impl": {k: sorted(map(str, v.elements()))[:6] for k, v in ishapes.items()}, **pipeline.case_json(g, cfg)})
         if len(samples) < 1 and len(g) < 9:
             samples.append({"nt": to_nt(g), "shacl": t_shacl})
+    # how ShExC writes a value (`[x]` for the instantiation property, a bare token otherwise) is regenerated from /repo (Props/GenStrTune)
+    base.fragment_s_tie(ctx, dis, stats, ['serializer_str_of_target_element', 'serializer_tune_token'])
     return base.std_result(ctx, cases, viol, dis, base.known_lines(kf, reproduced), stats, nontriv, samples,
                            "random graphs and configurations (disable_or_statements at its default; in a fifth of the cases enabled: ShExC OR against sh:or; one document of 900 classes, > 5000 ShExC lines); both serialisations of one Shaper parsed "
                            "(ShExC by the harness parser, SHACL Turtle by rdflib) and compared per shape as multisets of (direction, predicate, "
